@@ -324,15 +324,18 @@ def isHolder (s : Sys) (key id : Bytes) : Bool :=
 
 /-! ## cmd/syncer.go `clusterTicker`: what the instance does with the answers -/
 
-/-- scripted answers of the election: `ok | notLeader | err` for Renew,
-    `leader | follower | err` for Campaign -/
+/-- scripted behaviour of the election calls: `ok | notLeader | err` for Renew,
+    `leader | follower | err` for Campaign, `blk` = the call never returns
+    (redisElection ignores its context, the client has no deadline) -/
 inductive TRes where
-  | ok | notLeader | err | leader | follower
+  | ok | notLeader | err | leader | follower | blk
   deriving DecidableEq, Repr
 
 structure TOut where
-  calls : List Nat                     -- instants (ms since start) of the election calls
+  calls : List Nat                     -- instants (ms since the ticker started) of the election calls
   closed : Option (Nat × ErrClass)     -- when and how the ticker closed the syncer's wait
+  returned : Option Nat                -- when clusterTicker returned (only then runCluster stops the syncer)
+  deadline : Nat                       -- send instant of the last successful campaign/renewal + hold
   deriving DecidableEq, Repr
 
 def renewErr : TRes → ErrClass
@@ -341,37 +344,62 @@ def renewErr : TRes → ErrClass
   | .notLeader => .notLeader
   | .follower => .notLeader
   | .err => .other
+  | .blk => .other
 
-/-- role = leader: every `R` ms `util.Retry(clusterRenew, 2)`; if both attempts
-    fail the wait is closed with that error (joined with ErrBreak) and no
-    further call is made. Answers beyond the script are `ok`. -/
-def tickerLeader (R : Nat) : Nat → Nat → List TRes → List Nat → TOut
-  | _, 0, _, calls => { calls := calls.reverse, closed := none }
-  | i, n + 1, script, calls =>
+/-- the lease watchdog (`time.AfterFunc(leaseFrom + hold)`, re-armed from the
+    send instant of every successful renewal) fires at `dl` if that is within
+    the observed horizon -/
+def watchdogOut (calls : List Nat) (dl hor : Nat) : TOut :=
+  if dl ≤ hor then { calls := calls.reverse, closed := some (dl, .notLeader), returned := some dl, deadline := dl }
+  else { calls := calls.reverse, closed := none, returned := none, deadline := dl }
+
+/-- role = leader, tick `i` at `i·R`, `n` ticks left, `dl` = current watchdog
+    deadline, `hor` = end of the observation. Every tick
+    `util.Retry(clusterRenew, 2)` runs in its own goroutine while the loop
+    also waits for the wait's context: success re-arms the watchdog to
+    `t + H`; two failed attempts close the wait with that error at `t`; a call
+    that never returns leaves the watchdog to close it at `dl`. Answers
+    beyond the script are `ok`. -/
+def tickerLeader (R H hor : Nat) : Nat → Nat → Nat → List TRes → List Nat → TOut
+  | _, 0, dl, _, calls => watchdogOut calls dl hor
+  | i, n + 1, dl, script, calls =>
     let t := i * R
-    let a1 := script.headD .ok
-    if renewErr a1 = .ok then tickerLeader R (i + 1) n script.tail (t :: calls)
+    if dl < t then watchdogOut calls dl hor
     else
-      let a2 := script.tail.headD .ok
-      if renewErr a2 = .ok then tickerLeader R (i + 1) n script.tail.tail (t :: t :: calls)
-      else { calls := (t :: t :: calls).reverse, closed := some (t, renewErr a2) }
+      let a1 := script.headD .ok
+      if a1 = .blk then watchdogOut (t :: calls) dl hor
+      else if renewErr a1 = .ok then tickerLeader R H hor (i + 1) n (t + H) script.tail (t :: calls)
+      else
+        let a2 := script.tail.headD .ok
+        if a2 = .blk then watchdogOut (t :: t :: calls) dl hor
+        else if renewErr a2 = .ok then tickerLeader R H hor (i + 1) n (t + H) script.tail.tail (t :: t :: calls)
+        else { calls := (t :: t :: calls).reverse, closed := some (t, renewErr a2), returned := some t, deadline := dl }
 
 /-- role = follower: every `R` ms one campaign; an error closes the wait with
-    it, "leader" closes it with nil (the loop restarts as leader). Answers
-    beyond the script are `follower`. -/
+    it, "leader" closes it with nil (the loop restarts as leader); a campaign
+    that never returns just leaves the follower waiting (it leads nothing).
+    Answers beyond the script are `follower`. -/
 def tickerFollower (R : Nat) : Nat → Nat → List TRes → List Nat → TOut
-  | _, 0, _, calls => { calls := calls.reverse, closed := none }
+  | _, 0, _, calls => { calls := calls.reverse, closed := none, returned := none, deadline := 0 }
   | i, n + 1, script, calls =>
     let t := i * R
     match script.headD .follower with
-    | .err => { calls := (t :: calls).reverse, closed := some (t, .other) }
-    | .leader => { calls := (t :: calls).reverse, closed := some (t, .ok) }
-    | .ok => { calls := (t :: calls).reverse, closed := some (t, .ok) }
+    | .err => { calls := (t :: calls).reverse, closed := some (t, .other), returned := some t, deadline := 0 }
+    | .leader => { calls := (t :: calls).reverse, closed := some (t, .ok), returned := some t, deadline := 0 }
+    | .ok => { calls := (t :: calls).reverse, closed := some (t, .ok), returned := some t, deadline := 0 }
+    | .blk => { calls := (t :: calls).reverse, closed := none, returned := none, deadline := 0 }
     | _ => tickerFollower R (i + 1) n script.tail (t :: calls)
 
-/-- `n` ticks of `clusterTicker` -/
-def tickerRun (leader : Bool) (R n : Nat) (script : List TRes) : TOut :=
-  if leader then tickerLeader R 1 n script [] else tickerFollower R 1 n script []
+/-- `n` ticks of `clusterTicker` observed until `n·R + R/2`; `H` = leaseHold
+    (store ttl − renew period), the campaign that made the instance leader was
+    sent `ago` ms before the ticker started -/
+def tickerRun (leader : Bool) (R H ago n : Nat) (script : List TRes) : TOut :=
+  if leader then tickerLeader R H (n * R + R / 2) 1 n (H - ago) script []
+  else tickerFollower R 1 n script []
+
+/-- cmd/syncer.go `leaseHold`, in ms: the lease as the store counts it (whole
+    seconds) minus one renew period -/
+def leaseHoldMs (leaseMs renewMs : Nat) : Nat := leaseMs / 1000 * 1000 - renewMs
 
 /-! ## election identity: config `ServerConfig.fix` + cluster-mode check,
      cmd/syncer.go `NewElection(ctx, key, Server.ListenPeer)` -/
